@@ -328,6 +328,10 @@ Definition named_module_import (fuel : nat) (alias : text) (s : pstate) : outcom
       do toks <- expand_dirname toks final;
       let toks := prepend_names toks alias false in
       let ins := filter (fun t => negb (tk_is (t_kind t) TEOT)) toks in
+      (* a module whose text stops right after the module keyword is rejected: the import name would be a token
+         of the importing file *)
+      let tl := last ins (eot []) in
+      if tk_is (t_kind tl) TImport then Err (mkErr0 ESyntax (t_line tl) (t_file tl) TagGeneric) else
       match ps_rest s1 with
       | semi :: after =>
           let new_rest := semi :: ins ++ after in
